@@ -739,6 +739,21 @@ class Gen:
         finally:
             self.pool = False
 
+    def fam_abandoned(self, streams):
+        """calls whose context ends while the request is still being written (the peer stopped
+        reading) or not yet written (held connect), after which the caller reuses its buffer"""
+        size = 6 << 20
+        ts = streams + ["ws", "http", "fasthttp"]
+        for t in ts:
+            for how in ("cancel", "timeout", "abort"):
+                self.add({"op": "abandoned", "t": t, "fam": "abandoned", "kind": "peer-stalls/" + how,
+                          "how": how, "hold": "peer", "size": size})
+        for t in ("http", "fasthttp"):
+            for how in ("cancel", "timeout", "abort"):
+                for sz in ((300,) if self.quick else (0, 300, 70000)):
+                    self.add({"op": "abandoned", "t": t, "fam": "abandoned", "kind": "connect-held/" + how,
+                              "how": how, "hold": "dial", "size": sz})
+
     def fam_index_run(self):
         """one connection, calls numbered past the point where the 15-bit request index wraps"""
         n = 33000 if self.quick else 66000
@@ -765,6 +780,7 @@ class Gen:
             self.fam_fake_http(t)
         self.fam_pool(streams)
         self.fam_index_run()
+        self.fam_abandoned(streams)      # last: its late deliveries must not land in other cases
         return self.cases
 
 
@@ -1037,6 +1053,25 @@ def eval_case(m, c, o):
                 v.bad("response-not-exact", "%s: answer body is not the answer to the delivered request" % t)
         return v
 
+    if fam == "abandoned":
+        t = c["t"]
+        if o.get("healthy") is False:
+            v.bad("server-dead", "%s server no longer serves a healthy call after an abandoned call" % t)
+        # property (and C12_abandoned_copy_exact): whatever the service is handed was submitted by
+        # somebody, byte for byte.  ABANDONED_SUBMITTED is every request any abandoned-call case
+        # submitted in this run (a late delivery may surface one case later).
+        for d in delivered:
+            if d not in ABANDONED_SUBMITTED:
+                v.bad("abandoned-request-not-exact",
+                      "%s, call ended by %s while its request was %s, caller then reused its buffer: the service was handed %s, "
+                      "which nobody submitted (this call submitted %s)"
+                      % (t, c["how"], "being written to a stalled peer" if c["hold"] == "peer" else "waiting for the connection",
+                         d[:60], (o.get("submitted") or ["?"])[-1][:60]))
+                break
+        if o.get("pending_when_ended") is False:
+            v.inconclusive.append("request fitted into the socket buffers")
+        return v
+
     if fam == "index_run":
         n = c["_n"]
         if o.get("fails") or o.get("ok_count") != n:
@@ -1155,9 +1190,18 @@ def replay_of(c, o, v):
     return json.loads(json.dumps(r, default=lambda x: x.hex() if isinstance(x, (bytes, bytearray)) else str(x)))
 
 
+ABANDONED_SUBMITTED = set()
+
+
 def judge(ctx, m, cases, obs, second=None):
     """returns list of (case, observation, verdict)"""
     out = []
+    ABANDONED_SUBMITTED.clear()
+    ABANDONED_SUBMITTED.add(enc(b"warm-up"))
+    for c in cases:
+        if c["fam"] == "abandoned":
+            for o in (obs.get(c["id"]), (second or {}).get(c["id"])):
+                ABANDONED_SUBMITTED.update((o or {}).get("submitted", []))
     for c in cases:
         o = obs.get(c["id"])
         if second is not None and c["id"] in second:
@@ -1277,6 +1321,12 @@ def run(ctx):
                 known = KNOWN_SHAPES.get((fam, kind))
                 if known and not v.disagree and cls.startswith("delivered-from-inconsistent"):
                     key, what = known, KNOWN_WHAT[known] + " — e.g. " + text
+                elif cls == "abandoned-request-not-exact":
+                    site = {"tcp": "socket", "unix": "socket", "ws": "websocket"}.get(t, t)
+                    key = "%s-client-abandoned-request-sent-from-callers-buffer" % site
+                    what = ("rpc/%s client transport keeps the caller's request slice after Transport has returned "
+                            "(context ended while the request was queued / being written): the bytes written later are "
+                            "whatever the caller's buffer holds then — " % {"fasthttp": "http/fasthttp"}.get(site, site)) + text
                 else:
                     key, what = "%s:%s:%s:%s" % (t, fam, kind, cls), text
                 ctx.report(key, what, replay_of(c, o, v))
